@@ -449,8 +449,9 @@ func garbageCase(c *core.Case) {
 	cfg.Channels = []chanSpec{{ID: 0x30, Priority: 1, SendQ: 1, RecvCap: capacity, RecvBuf: 16}, {ID: 0x31, Priority: 2, SendQ: 1, RecvCap: capacity, RecvBuf: 16}}
 	cfg.build()
 	g := &garbageCtx{known: 0x30, unknown: 0x77, payload: payload, capacity: capacity}
-	// the largest legal packet, computed from the format: Packet{3: PacketMsg{1: ch, 2: eof, 3: data[payload]}}
-	g.maxPacket = len(pbBytes(nil, 3, append(pbVarintField(pbVarintField(nil, 1, 1), 2, 1), pbBytes(nil, 3, make([]byte, payload))...)))
+	// the largest legal packet, computed from the format: Packet{3: PacketMsg{1: ch, 2: eof, 3: data[payload]}}; the
+	// limit allows for a two-byte channel id (ids of 0x80 and above), whatever channels are registered
+	g.maxPacket = len(pbBytes(nil, 3, append(pbVarintField(pbVarintField(nil, 1, 0xff), 2, 1), pbBytes(nil, 3, make([]byte, payload))...)))
 	clk := &clock{}
 	b := newNode("b", clk)
 	d := newDuplex(r.Int63(), cfg.Chunk, 0)
